@@ -495,6 +495,13 @@ def termios_check(tier):
             os.execv(sys.executable, [sys.executable, "-c", TERMIOS % (core.REPO, path)])
         finally:
             os._exit(97)
+    try:
+        import fcntl
+        import struct
+        import termios
+        fcntl.ioctl(master, termios.TIOCSWINSZ, struct.pack("HHHH", 30, 100, 0, 0))   # a real window size
+    except OSError:
+        pass
     deadline = time.time() + 25
     status = None
     while time.time() < deadline:
